@@ -2,11 +2,14 @@
 
    regroup.run <journal JSON> <filter> <option>
        filter : real=0|1,cleared=0|1,acct=<word>
-       option : plain | sort:<key>,<key>… (key = date|payee|account|amount, `-` prefix = inverted)
-                | head:N | tail:N | subtotal | collapse | bypayee | dow | depth:N
-       answer : ok <TAB> row <TAB> row …   row = line|xactline|day|payee|account|amount|total
+       option : `+`-joined subset of  plain | dow | bypayee | subtotal | collapse | depth:N
+                | sort:<key>,<key>… | sortx:<keys> (--sort-xacts) | head:N | tail:N   (N may be negative)
+                (key = date|payee|account|amount, `-` prefix = inverted)
+       answer : ok <TAB> row <TAB> row …   row = line|xactline|day|payee|account|amount|amount_expr|total
                 (amount/total in the rendering of the verif_rational hook)
-                err <TAB> virt-mix | elided | bad-json | bad-op
+                err <TAB> virt-mix | null-amount | elided | bad-json | bad-op
+   regroup.rows <option> <row> …   the same over rows of ledger's plain register
+       (row = line|xactline|day|virtual|payee|account|amount|amount_expr): the valuation is data
    regroup.swo <journal JSON> <filter> <keys>
        answer : ok <TAB> 1|0 <TAB> 1|0   whether compare_items is a strict weak order on these postings,
                 and whether the guard of C17.sortValueLess_swo holds for them
@@ -40,24 +43,35 @@ def parseKeys (s : String) : Option (List SortKey) :=
   | [] => none
   | ks => optAll parseKey ks
 
-def parseOpt (s : String) : Option Opt :=
-  match s.splitOn ":" with
-  | ["plain"] => some .plain
-  | ["sort", ks] => (parseKeys ks).map .sort
-  | ["head", n] => n.toInt?.map .head
-  | ["tail", n] => n.toInt?.map .tail
-  | ["subtotal"] => some .subtotal
-  | ["collapse"] => some .collapse
-  | ["bypayee"] => some .byPayee
-  | ["dow"] => some .dow
-  | ["depth", n] => n.toNat?.map .depth
+def applyTok (o : Opts) (t : String) : Option Opts :=
+  match t.splitOn ":" with
+  | ["plain"] => some o
+  | ["dow"] => some { o with pre := .dow }
+  | ["bypayee"] => some (if o.pre = .dow then o else { o with pre := .byPayee })
+  | ["subtotal"] => some { o with subtotal := true }
+  | ["collapse"] => some { o with collapse := true }
+  | ["depth", n] => n.toNat?.map (fun k => { o with depth := some k })
+  | ["sort", ks] => (parseKeys ks).map (fun k => { o with sort := some (false, k) })
+  | ["sortx", ks] => (parseKeys ks).map (fun k => { o with sort := some (true, k) })
+  | ["head", n] => n.toInt?.map (fun k => { o with head := some k })
+  | ["tail", n] => n.toInt?.map (fun k => { o with tail := some k })
   | _ => none
+
+/-- options joined by `+`, e.g. `bypayee+subtotal+depth:1+sort:date+head:2+tail:1` -/
+def parseOpts (s : String) : Option Opts :=
+  if s.isEmpty then none else (s.splitOn "+").foldlM applyTok {}
 
 def renderRow (r : RPost × Value) : String :=
   -- a generated posting belongs to a temporary transaction without a source position
-  s!"{r.1.line}|{if r.1.line = 0 then 0 else r.1.xid}|{r.1.date}|{r.1.payee}|{r.1.account}|{r.1.amount.render}|{r.2.render}"
+  s!"{r.1.line}|{if r.1.line = 0 then 0 else r.1.xid}|{r.1.date}|{r.1.payee}|{r.1.account}|{r.1.amount.render}|{r.1.value.render}|{r.2.render}"
 
 def hasElided (j : Journal) : Bool := j.xacts.any (fun x => x.posts.any (fun p => p.amount.isNone))
+
+def answer (o : Opts) (posts : List RPost) : String :=
+  match report o posts with
+  | .ok rows => "\t".intercalate ("ok" :: rows.map renderRow)
+  | .error .virtMix => "err\tvirt-mix"
+  | .error .nullAmount => "err\tnull-amount"
 
 def opRun (args : List String) : String :=
   match args with
@@ -65,13 +79,42 @@ def opRun (args : List String) : String :=
     match (J.parse? js).bind J.journal? with
     | none => "err\tbad-json"
     | some j =>
-      match parseFilter fs, parseOpt os with
+      match parseFilter fs, parseOpts os with
       | some f, some o =>
         if hasElided j then "err\telided"
-        else match report o (plainPosts f j) with
-          | .ok rows => "\t".intercalate ("ok" :: rows.map renderRow)
-          | .error .virtMix => "err\tvirt-mix"
+        else answer o (plainPosts f j)
       | _, _ => "err\tbad-op"
+  | _ => "err\tbad-op"
+
+def parseValue? (s : String) : Option Value :=
+  if s.startsWith "I:" then (s.drop 2).toString.toInt?.map Value.int
+  else if s.startsWith "A:" then (parseAmount? (s.drop 2).toString).map Value.amt
+  else if s.startsWith "B:" then
+    (optAll parseAmount? (splitList (s.drop 2).toString ";")).map Value.bal
+  else none
+
+/-- a row of the plain register as ledger printed it:
+    line|xactline|day|virtual|payee|account|amount|amount_expr -/
+def parseRow? (s : String) : Option RPost :=
+  match s.splitOn "|" with
+  | [l, x, d, v, payee, acct, a, e] => do
+    let l ← l.toNat?
+    let x ← x.toNat?
+    let d ← d.toInt?
+    let v ← parseBool? v
+    let a ← parseValue? a
+    let e ← parseValue? e
+    pure { line := l, xid := x, date := d, payee := payee, account := acct, virt := v, amount := a, value := e, vdate := d }
+  | _ => none
+
+/-- `regroup.rows <options> <row> <row> …`: the handlers applied to the rows of a
+    plain register (the valuation of each posting is data: column amount_expr). -/
+def opRows (args : List String) : String :=
+  match args with
+  | os :: rows =>
+    match parseOpts os, optAll parseRow? rows with
+    | some o, some posts => answer o posts
+    | _, _ => "err\tbad-op"
   | _ => "err\tbad-op"
 
 /-- asymmetric and negatively transitive on the members of `l` (decidable check). -/
@@ -96,6 +139,6 @@ def opSwo (args : List String) : String :=
 end Regroup
 
 def RegroupProto.ops : List (String × (List String → String)) :=
-  [("regroup.run", Regroup.opRun), ("regroup.swo", Regroup.opSwo)]
+  [("regroup.run", Regroup.opRun), ("regroup.rows", Regroup.opRows), ("regroup.swo", Regroup.opSwo)]
 
 end Ledger
